@@ -816,6 +816,10 @@ class Engine:
                         # **mapping: only a concrete keyword mapping (the function's own **kwargs passed through)
                         if isinstance(v, VConc) and isinstance(v.py, dict) and v.py.get("__kwargs__"):
                             kw.update({a: b for a, b in v.py.items() if a != "__kwargs__"})
+                        elif isinstance(v, VObj) and v.kind == "dict" and s2.objs[v.oid].get("pure") and all(
+                                isinstance(a, str) and not isinstance(b, tuple) for a, b in s2.objs[v.oid]["pyitems"]):
+                            # **record: a dictionary with literal string keys and unconditional entries (a keyword table)
+                            kw.update(dict(s2.objs[v.oid]["pyitems"]))
                         else:
                             raise Unsupported("**mapping at call site")
                     else:
